@@ -13,6 +13,7 @@ import Driver.Fed
 import Driver.C10
 import Driver.C14
 import Driver.C04
+import Driver.C18
 open GqlVerif GqlVerif.Driver
 
 /-- dispatch one request; unknown op → `unsupported` -/
@@ -33,6 +34,7 @@ def dispatch (op : String) (args : Json) : Option Json :=
   | "c10.check" => some (c10check args)
   | "c14.sent" => some (c14sent args)
   | "c04.validate" => some (c04validate args)
+  | "c18.run" => some (c18run args)
   | "c19.decode" => some (c19decode args)
   | "c05.lex" => some (c05lex args)
   | "c05.limits" => some (c05limits args)
